@@ -4,8 +4,8 @@ package main
 
 import (
 	"fmt"
-	"os"
 	"go/types"
+	"os"
 	"sort"
 	"strings"
 
@@ -20,14 +20,16 @@ type cont struct {
 }
 
 type callCtx struct {
-	ex   *Exec
-	st   *State
-	cc   *ssa.CallCommon
-	args []*Val
-	site ssa.Instruction
-	key  string
-	sig  *types.Signature
+	ex    *Exec
+	st    *State
+	cc    *ssa.CallCommon
+	args  []*Val
+	site  ssa.Instruction
+	key   string
+	sig   *types.Signature
 	binds []*Val
+	// forceInline: execute the body even if the callee has a contract (the winner of a singleflight)
+	forceInline bool
 }
 
 func (c *callCtx) ret(v *Val) []cont { return []cont{{st: c.st, val: v}} }
@@ -253,7 +255,7 @@ func (ex *Exec) callFunc(st *State, f *ssa.Function, args []*Val, binds []*Val, 
 	if len(st.frames) > 0 {
 		depth = st.top().depth
 	}
-	if fc != nil && !(fc.Inline && inModule) && (len(fc.Ensures) > 0 || len(fc.Requires) > 0 || fc.Trusted || !inModule) {
+	if fc != nil && !ctx.forceInline && !(fc.Inline && inModule) && (len(fc.Ensures) > 0 || len(fc.Requires) > 0 || fc.Trusted || !inModule) {
 		return ex.applyContract(ctx, fc, f)
 	}
 	if inModule || (f.Blocks != nil && f.Parent() != nil && binds != nil) {
